@@ -225,7 +225,45 @@ class Prover:
     def prove_at(self, goal, ins, depth=3):
         """prove `goal` at instruction `ins`: along every path reaching it (case split at joins)"""
         self.trace = []
-        return self._prove_block(self._norm(goal), ins.block, depth, set())
+        g = self._norm(goal)
+        if self._prove_block(g, ins.block, depth, set()):
+            return True
+        return self._prove_at_join_above(g, ins.block)
+
+    def _prove_at_join_above(self, goal, block):
+        """the deciding facts may have been established by a guard further up whose outcomes merged again (`if (a == 0 ||
+        check) ...`): at each join that dominates `block`, every way into the join -- taken together with everything
+        that is known at `block` itself -- must entail the goal.  Sound: every path to `block` enters each dominating
+        join through exactly one of its predecessors, and dominating facts are about immutable SSA values."""
+        fn = self.fn
+        base = set(self.fc.block_facts(block))
+        mentioned = {x for x in goal[1:] if isinstance(x, str)}
+        joins = [b for b in fn.blocks if b is not block and len(b.pred) >= 2 and fn.dominates_block(b, block)]
+        # nearest joins first
+        joins.sort(key=lambda b: -len([x for x in fn.blocks if fn.dominates_block(x, b)]))
+        for j in joins[:6]:
+            if any(i.op == 'phi' and i.ref in mentioned for i in j.insts):
+                continue
+            ok = True
+            for p in j.pred:
+                fs = frozenset(base | set(self.fc.edge_facts(p, j)))
+                if self.entails(fs, goal):
+                    continue
+                # one level further: p may itself be the meeting point of a short-circuit condition
+                atoms, via = edge_atoms(fn, p, j)
+                sub_ok = len(p.pred) >= 1
+                for pp in p.pred:
+                    fs2 = frozenset(base | set(self.fc.edge_facts(pp, p)) | set(atoms))
+                    if not self.entails(fs2, goal):
+                        sub_ok = False
+                        break
+                if not sub_ok:
+                    ok = False
+                    break
+            if ok:
+                self.trace.append(('join-above', j.name, goal, sorted(base)))
+                return True
+        return False
 
     def _norm(self, goal):
         return (goal[0],) + tuple(_k(strip_bitcasts(self.fn, x)) if isinstance(x, str) else x for x in goal[1:])
@@ -430,6 +468,12 @@ class Prover:
                 return True
             if ca == 0:
                 return True
+            if ca is not None and ca >= 1:
+                # c <= b  from  c-1 < b;  1 <= b  from  b != 0
+                if ('ult', '#%d' % (ca - 1), b) in facts:
+                    return True
+                if ca == 1 and (('ne', b, '#0') in facts or ('ne', '#0', b) in facts):
+                    return True
             if cb is not None:
                 u = self.ub(facts, a, depth + 1)
                 if u is not None and u <= cb:
@@ -547,4 +591,20 @@ class Prover:
         k = self._mul_bound(facts, a, b)
         if k is not None and k <= mx:
             return True
+        # compute-then-check: (a * b) / b == a  (b != 0) proves the product did not wrap; a zero factor never wraps
+        for (op, x, y) in facts:
+            if op != 'eq':
+                continue
+            if (x in (a, b) and const_int(y) == 0) or (y in (a, b) and const_int(x) == 0):
+                return True
+            for q, other in ((x, y), (y, x)):
+                qi = self._ins(q)
+                if qi is None or qi.op != 'udiv':
+                    continue
+                mi = self._ins(_k(qi.o[0]))
+                if mi is None or mi.op != 'mul' or {_k(mi.o[0]), _k(mi.o[1])} != {a, b}:
+                    continue
+                d = _k(qi.o[1])
+                if d in (a, b) and other == (b if d == a else a):
+                    return True
         return False
